@@ -243,7 +243,7 @@ Proof.
         - destruct (main_le_last _ w' (inv_sorted m I k) Hw' Hm') as (w1 & E1 & Hle1).
           rewrite E0 in E1. injection E1 as <-. lia. }
       assert (Ec : v_cid w = v_cid w0).
-      { apply (k_seq_inj m K _ _ w w0 Hw1 (k_listed m K k w0 Hw0)). lia. }
+      { apply (k_seq_inj m K _ _ w w0 Hw1 (k_listed m K k w0 Hw0)); [exact Hw2 | apply Hmain0; exact Hm0 | lia]. }
       rewrite Ec in Hw1. rewrite (k_listed m K k w0 Hw0) in Hw1. injection Hw1 as ->. reflexivity.
     + exfalso. apply (Hnone k Ew w0 Hrec0); [apply Hmain0; exact Hm0 | exact Hk0].
   - destruct (aget (fst (load_winners m)) k) as [w|] eqn:Ew; [|reflexivity]. exfalso.
@@ -269,9 +269,9 @@ Lemma reopen_unfold g m :
   let del := snd (load_winners m) in
   let maxseq := fold_left (fun a p => N.max a (v_seq (snd p))) win 1 in
   let stores := sort_amap (map (fun p => (fst p, [snd p])) win) in
-  enqueue (mkm (if N.eqb g 0 then maxseq else g) [] [(0, stores)] stores (m_cont m) (m_kvf m) []
+  enqueue (mkm (N.max g maxseq) [] [(0, stores)] stores (m_cont m) (m_kvf m) []
                (m_nexttx m) (m_nextcid m)) del.
-Proof. unfold reopen_with. destruct (load_winners m) as [win del]. reflexivity. Qed.
+Proof. unfold reopen_with, reopen_gen, seq_set_fixed. destruct (load_winners m) as [win del]. reflexivity. Qed.
 
 Lemma reopen_all g m k :
   Inv m -> InvKV m -> lget (m_all (reopen_with g m)) k = opt_list (latest_main m k).
@@ -300,7 +300,7 @@ Lemma reopen_fields g m :
   let m' := reopen_with g m in
   m_reg m' = [] /\ m_cont m' = m_cont m /\ m_kvf m' = m_kvf m /\
   m_nexttx m' = m_nexttx m /\ m_nextcid m' = m_nextcid m /\
-  (g <> 0 -> m_seq m' = g) /\
+  m_seq m' = N.max g (fold_left (fun a p => N.max a (v_seq (snd p))) (fst (load_winners m)) 1) /\
   map fst (m_all m') = sort_keys (map fst (fst (load_winners m))) /\
   (forall j, In j (m_q m') -> j = snd (load_winners m)).
 Proof.
@@ -313,8 +313,7 @@ Proof.
   end.
   cbn zeta in *. rewrite E1, E2, E4, E5, E6, E7, Ekvf. cbn [m_seq m_reg m_all m_cont m_kvf m_nexttx m_nextcid].
   repeat split; try exact Hq.
-  - intros Hg. destruct (N.eqb_spec g 0); [contradiction | reflexivity].
-  - rewrite keys_sort_amap, map_map. reflexivity.
+  rewrite keys_sort_amap, map_map. reflexivity.
 Qed.
 
 Lemma latest_main_facts m k w :
@@ -332,16 +331,33 @@ Proof.
   destruct H as [<-|[]]. reflexivity.
 Qed.
 
-(* same-process reopen keeps every invariant *)
-Lemma reopen_inv m : Inv m -> InvKV m -> InvKC m -> Inv (reopen m) /\ InvKV (reopen m) /\ InvKC (reopen m).
+Lemma fold_max_ge (win : list (N * ver)) : forall a p,
+  In p win -> v_seq (snd p) <= fold_left (fun a0 (p0 : N * ver) => N.max a0 (v_seq (snd p0))) win a.
 Proof.
-  intros I KV KC. unfold reopen.
-  set (g := m_seq m).
+  assert (Hmono : forall (l : list (N * ver)) a, a <= fold_left (fun a0 (p0 : N * ver) => N.max a0 (v_seq (snd p0))) l a).
+  { induction l as [|q l IH]; intros a; [apply N.le_refl|]. cbn [fold_left].
+    specialize (IH (N.max a (v_seq (snd q)))). lia. }
+  induction win as [|q win IH]; intros a p Hp; [destruct Hp|]. cbn [fold_left].
+  destruct Hp as [->|Hp]; [|apply IH; exact Hp].
+  specialize (Hmono win (N.max a (v_seq (snd p)))). lia.
+Qed.
+
+(* reopening keeps every invariant, whatever value [g] the process-global counter has *)
+Lemma reopen_inv_gen g m :
+  Inv m -> InvKV m -> InvKC m ->
+  Inv (reopen_with g m) /\ InvKV (reopen_with g m) /\ InvKC (reopen_with g m).
+Proof.
+  intros I KV KC.
   destruct (reopen_fields g m) as (Er & Ec & Ek & Ent & Enc & Eseq & Ekeys & Eq). cbn zeta in *.
   destruct (load_winners_inv m KV) as (Hnd & Hwin & Hnone & Hdel & Hall).
-  assert (Hseq : forall c r, aget (m_kvf m) c = Some r -> v_seq r <= m_seq (reopen_with g m)).
-  { intros c r Hr. destruct (k_record m KV c r Hr) as (_ & Hpos & Hle & _).
-    assert (Hg : g <> 0) by (unfold g; lia). rewrite (Eseq Hg). exact Hle. }
+  assert (Hseq : forall c r, aget (m_kvf m) c = Some r -> v_tx r = 0 -> v_seq r <= m_seq (reopen_with g m)).
+  { intros c r Hr Hm. destruct (k_record m KV c r Hr) as (Hc & _).
+    assert (Hrec : In r (map snd (m_kvf m))) by (apply (In_recs m r KV); rewrite Hc; exact Hr).
+    destruct (aget (fst (load_winners m)) (v_key r)) as [w|] eqn:Ew.
+    - destruct (Hwin _ _ Ew) as (_ & _ & _ & W4). specialize (W4 r Hrec Hm eq_refl).
+      apply aget_In in Ew. assert (Hge := fold_max_ge (fst (load_winners m)) 1 _ Ew). cbn [snd] in Hge.
+      rewrite Eseq. lia.
+    - exfalso. exact (Hnone _ Ew r Hrec Hm eq_refl). }
   assert (Hlat : forall k v, In v (lget (m_all (reopen_with g m)) k) ->
                  In v (lget (m_all m) k) /\ is_main v = true /\ v_key v = k /\ latest_main m k = Some v).
   { intros k v Hv. apply (In_reopen_all g m k v I KV) in Hv.
@@ -351,7 +367,8 @@ Proof.
     + intros k. rewrite (reopen_all g m k I KV). destruct (latest_main m k); repeat constructor.
     + intros k v Hv. destruct (Hlat k v Hv) as (H1 & H2 & H3 & _).
       destruct (inv_range m I _ _ H1) as (Hp & _ & _ & Hc). rewrite Enc.
-      repeat split; try assumption. apply (Hseq (v_cid v) v). apply (k_listed m KV k v H1).
+      repeat split; try assumption. apply (Hseq (v_cid v) v); [apply (k_listed m KV k v H1)|].
+      unfold is_main in H2. apply N.eqb_eq. exact H2.
     + intros h k. rewrite (reopen_tx g m h k I KV), (reopen_all g m k I KV).
       destruct (latest_main m k) as [w|] eqn:E; cbn [opt_list filter].
       * destruct (latest_main_facts m k w I E) as (_ & Hm & _). unfold owned, is_main in *.
@@ -386,7 +403,7 @@ Proof.
         { rewrite (reopen_all g m _ I KV), Hlm. left. reflexivity. }
         destruct (N.eq_dec (v_seq r) (v_seq w)) as [Es|Ns].
         -- left. apply (In_recs m w KV) in W1.
-           assert (Ecid : c = v_cid w) by (apply (k_seq_inj m KV c (v_cid w) r w Hr W1 Es)).
+           assert (Ecid : c = v_cid w) by (apply (k_seq_inj m KV c (v_cid w) r w Hr W1 Hm W2 Es)).
            rewrite Ecid in Hr. rewrite W1 in Hr. injection Hr as <-. exact Hin'.
         -- right. right. exists w. split; [exact Hin'|]. split; [exact L2|].
            specialize (W4 r Hrec Hm eq_refl). lia.
@@ -405,6 +422,9 @@ Proof.
         rewrite reopen_unfold. cbn zeta. apply In_q_enqueue; [|right; reflexivity].
         intros En. rewrite En in Hd. exact Hd.
 Qed.
+
+Lemma reopen_inv m : Inv m -> InvKV m -> InvKC m -> Inv (reopen m) /\ InvKV (reopen m) /\ InvKC (reopen m).
+Proof. apply reopen_inv_gen. Qed.
 
 (* ---------- reopen refines the spec's Reopen ---------- *)
 Lemma aget_filter_snd {V} (f : V -> bool) (s : list (N * V)) k :
@@ -452,10 +472,10 @@ Qed.
 
 Definition spec_reopen (a : astate) : astate := fst (astep a OReopen).
 
-Lemma reopen_sim m a :
-  Inv m -> InvKV m -> R m a -> R (reopen m) (spec_reopen a).
+Lemma reopen_sim_gen g m a :
+  Inv m -> InvKV m -> R m a -> R (reopen_with g m) (spec_reopen a).
 Proof.
-  intros I KV HR. unfold reopen. set (g := m_seq m).
+  intros I KV HR.
   destruct (reopen_fields g m) as (Er & Ec & _ & Ent & _ & _ & Ekeys & _). cbn zeta in *.
   assert (Hnda : NoDup (map fst (a_vers a))) by (rewrite (r_keys m a HR); apply (inv_keys m I)).
   set (S := filter (fun p : N * list aver => match snd p with [] => false | _ :: _ => true end)
@@ -503,6 +523,9 @@ Proof.
   - rewrite Er. unfold spec_reopen. cbn [astep fst a_open]. constructor.
   - rewrite Ent. unfold spec_reopen. cbn [astep fst a_nexttx]. apply (r_next m a HR).
 Qed.
+
+Lemma reopen_sim m a : Inv m -> InvKV m -> R m a -> R (reopen m) (spec_reopen a).
+Proof. apply reopen_sim_gen. Qed.
 
 (* ---------- all operations, Reopen included ---------- *)
 Definition Full (m : mstate) : Prop := Inv m /\ InvKV m /\ InvKC m.
@@ -570,4 +593,131 @@ Theorem model_refines_spec_reopen ops : no_late_writes ops = true -> mrun ops = 
 Proof.
   intros Hl. unfold mrun, arun. apply run_refines_full; [exact Full_init | exact R_init |].
   apply wf_from_bool'. exact Hl.
+Qed.
+
+(* ---------- the counter may be raised by other database instances at any time ---------- *)
+Lemma bump_full m a s :
+  Full m -> R m a -> m_seq m <= s -> Full (set_seq m s) /\ R (set_seq m s) a.
+Proof.
+  intros (I & KV & KC) HR Hs. split; [split; [|split]|].
+  - constructor; cbn [m_all m_seq m_tx m_reg m_cont m_q m_nexttx m_nextcid set_seq]; try apply I.
+    + intros k v Hv. destruct (inv_range m I _ _ Hv) as (H1 & H2 & H3 & H4). repeat split; try assumption; lia.
+    + intros x Hx. destruct (inv_reg_range m I x Hx) as (H1 & H2 & H3 & H4). repeat split; try assumption; lia.
+  - apply (InvKV_ext m); try reflexivity; [exact Hs | exact KV].
+  - apply (InvKC_ext m); try reflexivity. exact KC.
+  - apply (R_ext m); try reflexivity. exact HR.
+Qed.
+
+(* opening (Load) refines the spec's Reopen whatever the counter's value — with the repaired Set *)
+Theorem reopen_any_counter g m a :
+  Full m -> R m a -> Full (reopen_with g (drain m)) /\ R (reopen_with g (drain m)) (spec_reopen a).
+Proof.
+  intros (I & KV & KC) HR.
+  assert (Id := drain_inv m I). destruct (drain_invK m I KV KC) as [KVd KCd].
+  assert (Rd := drain_sim m a I HR).
+  split; [exact (reopen_inv_gen g (drain m) Id KVd KCd) | exact (reopen_sim_gen g (drain m) a Id KVd Rd)].
+Qed.
+
+(* with the original Set (compare-and-swap from 0) a write acknowledged after reopening is lost
+   at the next reopen: defect D1, repaired by a fix: commit *)
+Definition d1_prepared : mstate := mstate_after m_init [OSet 0 1 1; OSet 0 1 2; OSet 0 1 3].
+
+Theorem later_writes_win_refuted_orig :
+  let m1 := reopen_with_orig 1 d1_prepared in        (* opened in a process whose counter is 1 *)
+  let m2 := fst (mstep m1 (OSet 0 1 9)) in            (* acknowledged write of NEW *)
+  let m3 := reopen_with_orig (m_seq m2) (drain m2) in (* Close; Open *)
+  snd (mstep m2 (OGet 0 1)) = OutVal 9 /\ snd (mstep m3 (OGet 0 1)) = OutVal 3.
+Proof. vm_compute. split; reflexivity. Qed.
+
+Example later_writes_win_fixed_example :
+  let m1 := reopen_with 1 d1_prepared in
+  let m2 := fst (mstep m1 (OSet 0 1 9)) in
+  let m3 := reopen_with (m_seq m2) (drain m2) in
+  snd (mstep m2 (OGet 0 1)) = OutVal 9 /\ snd (mstep m3 (OGet 0 1)) = OutVal 9.
+Proof. vm_compute. split; reflexivity. Qed.
+
+(* ---------- C14: what is on disk at quiescence ---------- *)
+Lemma collect_all (l : list ver) h :
+  vsorted l -> (forall v, In v l -> 0 < v_seq v /\ v_seq v <= h) ->
+  collect_list v_seq l h = (removelast l, opt_list (last_opt l)).
+Proof.
+  induction l as [|x l IH]; intros Hs Hb; [reflexivity|].
+  destruct l as [|y r]; [reflexivity|].
+  assert (Hs' := Hs). apply sorted_cons_inv in Hs'. destruct Hs' as [Hsl _].
+  change (collect_list v_seq (x :: y :: r) h) with
+      (if negb (N.eqb (v_seq y) 0 || N.ltb h (v_seq y))
+       then let (d, keep) := collect_list v_seq (y :: r) h in (x :: d, keep)
+       else ([], x :: y :: r)).
+  destruct (Hb y (or_intror (or_introl eq_refl))) as [Hy1 Hy2].
+  destruct (N.eqb_spec (v_seq y) 0); [lia|]. destruct (N.ltb_spec h (v_seq y)); [lia|]. cbn [orb negb].
+  rewrite IH; [|exact Hsl | intros v Hv; apply Hb; right; exact Hv].
+  f_equal. f_equal. rewrite (last_opt_cons ver x (y :: r)).
+  destruct (last_opt (y :: r)) eqn:E; [reflexivity|]. apply last_opt_none in E. discriminate.
+Qed.
+
+Theorem quiescent_disk m :
+  Full m -> m_reg m = [] ->
+  let m' := drain (gc (drain m)) in
+  (forall k, lget (m_all m') k = opt_list (latest_main m k)) /\
+  (forall c x, aget (m_cont m') c = Some x ->
+     exists k w, latest_main m k = Some w /\ v_cid w = c /\ aget (m_cont m) c = Some x) /\
+  (forall k w x, latest_main m k = Some w -> aget (m_cont m) (v_cid w) = Some x ->
+     aget (m_cont m') (v_cid w) = Some x).
+Proof.
+  intros (I & KV & KC) Hreg. cbn zeta.
+  (* first drain *)
+  set (m1 := drain m).
+  assert (I1 : Inv m1) by exact (drain_inv m I). destruct (drain_invK m I KV KC) as [KV1 KC1].
+  assert (E1 := fold_clean_job_fields (m_q m) (set_q m [])). cbn zeta in E1. fold (drain m) in E1. fold m1 in E1.
+  destruct E1 as (_ & Er1 & _ & Ea1 & Eq1 & _).
+  cbn [m_reg m_all m_q set_q] in Er1, Ea1, Eq1.
+  (* every listed version is committed *)
+  assert (Hmain : forall k v, In v (lget (m_all m1) k) -> is_main v = true).
+  { intros k v Hv. destruct (inv_owner m1 I1 k v Hv) as [H|(x & Hx & _)]; [unfold is_main; rewrite H; reflexivity|].
+    rewrite Er1, Hreg in Hx. destruct Hx. }
+  (* collection with a fresh horizon keeps exactly the newest version of every key *)
+  set (m2 := gc m1).
+  assert (I2 : Inv m2) by exact (gc_inv m1 I1). destruct (gc_invK m1 I1 KV1 KC1) as [KV2 KC2].
+  assert (A2 : forall k, lget (m_all m2) k = opt_list (last_opt (lget (m_all m1) k))).
+  { intros k. unfold m2. rewrite (gc_all m1 k I1).
+    set (l := lget (m_all m1) k).
+    assert (Hfm : filter is_main l = l) by (apply filter_true; intros v Hv; exact (Hmain k v Hv)).
+    assert (Hh : gc_horizon m1 = N.succ (m_seq m1)) by (unfold gc_horizon; rewrite Er1, Hreg; reflexivity).
+    assert (Hd : gc_deleted_of l (gc_horizon m1) = removelast l).
+    { unfold gc_deleted_of. rewrite Hfm, collect_all; [reflexivity | apply (inv_sorted m1 I1) |].
+      intros v Hv. destruct (inv_range m1 I1 _ _ Hv) as (H1 & H2 & _). rewrite Hh. lia. }
+    unfold gc_keep. rewrite Hd.
+    destruct (last_opt l) as [w|] eqn:El.
+    - assert (Hl := last_opt_some _ _ _ El). assert (Hnd : NoDup l) by (apply sorted_NoDup; apply (inv_sorted m1 I1)).
+      remember (removelast l) as d eqn:Ed. clear Ed. cbn [opt_list]. rewrite Hl in Hnd |- *.
+      apply filter_notin_app. exact Hnd.
+    - apply last_opt_none in El. rewrite El. reflexivity. }
+  assert (Q2 : m_q m2 = []) by (unfold m2; destruct (gc_fields m1) as (_ & _ & -> & _); exact Eq1).
+  (* second drain: nothing queued *)
+  assert (E3 : drain m2 = set_q m2 []) by (unfold drain; rewrite Q2; reflexivity).
+  assert (Hlm : forall k, last_opt (lget (m_all m1) k) = latest_main m k).
+  { intros k. unfold latest_main. rewrite <- Ea1. symmetry. f_equal.
+    apply filter_true. intros v Hv. exact (Hmain k v Hv). }
+  split; [|split].
+  - intros k. rewrite E3. cbn [m_all set_q]. rewrite A2, Hlm. reflexivity.
+  - intros c x Hc. rewrite E3 in Hc. cbn [m_cont set_q] in Hc.
+    destruct (k_cont_live m2 [] KC2 c x Hc) as [(k & v & Hv & E)|[(j & d & Hj & _)|(d & [] & _)]].
+    + rewrite A2, Hlm in Hv. destruct (latest_main m k) as [w|] eqn:Ew; [|destruct Hv].
+      destruct Hv as [<-|[]]. exists k, w. split; [exact Ew|]. split; [exact E|].
+      (* the content survived both steps unchanged *)
+      unfold m2 in Hc. rewrite (gc_cont m1 c I1) in Hc.
+      destruct (existsb _ (gc_deleted m1)); [discriminate|].
+      unfold m1, drain in Hc.
+      destruct (classic_queue m c) as [Hin|Hnot].
+      * rewrite fold_clean_job_cont_none in Hc by exact Hin. discriminate.
+      * rewrite fold_clean_job_cont in Hc; [exact Hc|]. intros j d Hj Hd Ed. apply Hnot. eauto.
+    + rewrite Q2 in Hj. destruct Hj.
+  - intros k w x Hw Hx. rewrite E3. cbn [m_cont set_q].
+    destruct (latest_main_facts m k w I Hw) as (Hin & Hm & Hk).
+    assert (Hc1 : aget (m_cont m1) (v_cid w) = Some x).
+    { unfold m1, drain. rewrite fold_clean_job_cont; [exact Hx|].
+      intros j d Hj Hd E. destruct (inv_queue m I j d Hj Hd) as [_ Hne]. apply (Hne k w Hin). symmetry. exact E. }
+    unfold m2. rewrite (gc_cont_kept m1 k w I1); [exact Hc1 | rewrite Ea1; exact Hin |].
+    apply gc_keep_true; [apply (inv_sorted m1 I1) | rewrite Ea1; exact Hin |].
+    unfold vkeep. rewrite Ea1. fold (latest_main m k). rewrite Hw, N.eqb_refl. apply orb_true_r.
 Qed.
